@@ -59,7 +59,6 @@ type karr struct {
 	unsup     map[string]bool
 	steps     int
 	forks     []*space
-	zt        map[int]bool // benefit mode: variables that hold (or derive from) an unknown taken as 0
 	benefit   bool // unknown values are taken as 0 instead of free (used only to classify a failed proof)
 }
 
@@ -147,7 +146,7 @@ func isUnsigned(t types.Type) bool {
 
 func newKarr(p *Prog, T *types.Named) *karr {
 	k := &karr{p: p, T: T, fieldVar: map[int]int{}, entryVar: map[int]int{}, vals: map[kvalKey]int{}, byCtx: map[int][]kvalKey{},
-		specs: map[string]kspec{}, notes: map[string]bool{}, unsup: map[string]bool{}, zt: map[int]bool{}}
+		specs: map[string]kspec{}, notes: map[string]bool{}, unsup: map[string]bool{}}
 	k.st, _ = T.Underlying().(*types.Struct)
 	if k.st != nil {
 		for i := 0; i < k.st.NumFields(); i++ {
@@ -166,7 +165,6 @@ func (k *karr) newVar() int {
 	if n := len(k.free); n > 0 {
 		v := k.free[n-1]
 		k.free = k.free[:n-1]
-		delete(k.zt, v)
 		return v
 	}
 	k.nvars++
@@ -279,28 +277,16 @@ func (k *karr) setVal(s *space, ctx int, v ssa.Value, idx int, e lin, ok bool) {
 	x := k.varOf(ctx, v, idx)
 	s.grow(k.nvars)
 	if ok {
-		if k.benefit && k.tainted(e) {
-			k.zt[x] = true
-		}
 		s.assign(x, e)
 	} else {
 		k.unknown(s, x)
 	}
 }
 
-func (k *karr) tainted(e lin) bool {
-	for v := range e.co {
-		if k.zt[v] {
-			return true
-		}
-	}
-	return false
-}
-
 func (k *karr) unknown(s *space, x int) {
 	if k.benefit {
-		k.zt[x] = true
 		s.forget(x)
+		s.markTaint(x)
 	} else {
 		s.havoc(x)
 	}
@@ -467,9 +453,6 @@ func (k *karr) analyse(fn *ssa.Function, ctx int, in *space, this ssa.Value) []k
 					}
 					x := k.varOf(ctx, ph, -1)
 					if e, ok := k.lx(ctx, ph.Edges[pi]); ok {
-						if k.benefit && k.tainted(e) {
-							k.zt[x] = true
-						}
 						xs = append(xs, x)
 						es2 = append(es2, e)
 					} else {
@@ -555,7 +538,7 @@ func (k *karr) refine(ctx int, s *space, cond ssa.Value, onTrue bool) {
 		if !ok {
 			return
 		}
-		if k.benefit && k.tainted(e) {
+		if k.benefit && s.tainted(e) {
 			return
 		}
 		if (bo.Op == token.EQL) == onTrue {
@@ -602,7 +585,7 @@ func (k *karr) refine(ctx int, s *space, cond ssa.Value, onTrue bool) {
 		}
 	}
 	if eq {
-		if k.benefit && (k.tainted(lxv) || k.tainted(lyv)) {
+		if k.benefit && (s.tainted(lxv) || s.tainted(lyv)) {
 			return
 		}
 		s.meet(lxv.minus(lyv))
@@ -622,9 +605,6 @@ func (k *karr) transfer(fn *ssa.Function, ctx int, this ssa.Value, s *space, ins
 			e, ok := k.lx(ctx, x.Val)
 			s.grow(k.nvars)
 			if ok {
-				if k.benefit && k.tainted(e) {
-					k.zt[k.fieldVar[f]] = true
-				}
 				s.assign(k.fieldVar[f], e)
 			} else {
 				k.unknown(s, k.fieldVar[f])
@@ -657,7 +637,38 @@ func (k *karr) transfer(fn *ssa.Function, ctx int, this ssa.Value, s *space, ins
 			}
 		}
 		return
-	case *ssa.Defer, *ssa.RunDefers, *ssa.Go, *ssa.MakeClosure, *ssa.Select:
+	case *ssa.RunDefers:
+		return // the deferred calls were classified where they were registered
+	case *ssa.Defer:
+		// a deferred call that does not receive the receiver cannot touch its fields (A3)
+		touches := false
+		for _, a := range x.Call.Args {
+			if a == this {
+				touches = true
+			}
+		}
+		if mc, ok := x.Call.Value.(*ssa.MakeClosure); ok {
+			for _, b := range mc.Bindings {
+				if b == this {
+					touches = true
+				}
+			}
+		}
+		if !touches {
+			return
+		}
+		k.unsup[fmt.Sprintf("%T in %s", ins, k.p.FnName(fn))] = true
+		k.havocFields(s)
+		return
+	case *ssa.MakeClosure:
+		for _, b := range x.Bindings {
+			if b == this {
+				k.unsup[fmt.Sprintf("closure over the receiver in %s", k.p.FnName(fn))] = true
+				k.havocFields(s)
+			}
+		}
+		return
+	case *ssa.Go, *ssa.Select:
 		k.unsup[fmt.Sprintf("%T in %s", ins, k.p.FnName(fn))] = true
 		k.havocFields(s)
 		return
@@ -934,9 +945,6 @@ func (k *karr) call(fn *ssa.Function, ctx int, this ssa.Value, s *space, c *ssa.
 		}
 		x := k.varOf(cctx, prm, -1)
 		if e, ok := k.lx(ctx, c.Call.Args[i]); ok {
-			if k.benefit && k.tainted(e) {
-				k.zt[x] = true
-			}
 			xs = append(xs, x)
 			es = append(es, e)
 		} else {
